@@ -21,7 +21,7 @@ class C02(Prop):
     lean_exe = "c02_driver"
     harness = "h_sqio.c"
     MSA_THEOREMS = ["msa_open_total", "msa_fetch_total", "msa_read_total", "msa_readSequence_total", "msa_readInfo_total", "msa_mode_ok",
-                    "msa_fwd_window_coords", "msa_rev_window_coords", "msa_rev_window_old_illformed", "msa_readWindow_total", "msa_readBlock_total", "msa_guessAlphabet_total", "msa_read_total_stockholm", "msa_file_read_total"]
+                    "msa_fwd_window_coords", "msa_rev_window_coords", "msa_rev_window_old_illformed", "msa_readWindow_total", "msa_readBlock_total", "msa_guessAlphabet_total", "msa_read_total_stockholm", "msa_file_read_total", "readSequence_linebased_total"]
     theorems = ["EaselModel.Props.C02." + t for t in S.C02_THEOREMS + MSA_THEOREMS]
     claimed = True
     diverge_is_violation = True
